@@ -14,6 +14,7 @@ import (
 	"verif/internal/racer"
 	"verif/internal/reqsim"
 	"verif/internal/sched"
+	"verif/internal/storesim"
 	"verif/internal/subs"
 )
 
@@ -27,6 +28,7 @@ var checks = map[string]func(*core.Ctx){
 	"C07": reqsim.Run,
 	"C08": reqsim.Run,
 	"C09": subs.Run,
+	"C10": storesim.RunC10,
 	"C15": qevent.Run,
 	"C16": racer.Run,
 	"C17": pattern.Run,
